@@ -247,6 +247,13 @@ def check_crate(fx, rep, crate, cfg):
                 C.trace_field(body, info['b']['args'][0], WC) == buf_field
             if not (a_ok and b_len):
                 continue
+            # the length must be the buffer's *current* length: a value read before a growth that can still happen on the way to the test
+            # (`let end = self.buffer.len()` ahead of the retry loop) is stale, the test can never see "full" after growth
+            lb = info['b'].get('block')
+            stale = lb is not None and any(g in body.reachable(lb) and sw2 in body.reachable(g) and g != lb for g in grow)
+            if stale:
+                rdetail = {'test': C.where(body, sw2), 'length_read_before_a_growth': C.where(body, lb)}
+                continue
             full_edge = info['true'] if info['op'] in ('Eq', 'Ge') else info['false']
             r = body.reachable(full_edge, avoid=set(grow))
             grows_first = bool(tb) and all(x not in r for x in tb)
